@@ -129,12 +129,15 @@ def for_property(model: Model, pid: str, tier: str):
     return obs
 
 
-def unification_obligations(model: Model, tier: str):
-    """C18/O4: every identification of two operand sizes needs a dominating guard (a fact established on the path)."""
+def unification_obligations(model: Model, tier: str, only_funcs=None):
+    """C18/O4: every identification of two operand sizes needs a dominating guard (a fact established on the path).
+    only_funcs: restrict to the scenarios of these functions (a property that owns an operation also owns its size identifications)"""
     obs = []
     seen = set()
     for s in scenarios():
         if s.tier == "thorough" and tier != "thorough":
+            continue
+        if only_funcs is not None and s.func not in only_funcs:
             continue
         o, unis = run_scenario(model, s)
         # must-raise scenarios and analysis errors belong to C18 as well
